@@ -124,6 +124,16 @@ fn judge_file(out: &mut Out, st: &mut St, cfg: &Cfg, kind: &str, wr: Writer, pcm
     }
 }
 
+/// a Write + Seek sink that takes at most `max` bytes per write call
+struct ShortSink { inner: Cursor<Vec<u8>>, max: usize }
+impl std::io::Write for ShortSink {
+    fn write(&mut self, buf: &[u8]) -> std::io::Result<usize> { let n = buf.len().min(self.max); self.inner.write(&buf[..n]) }
+    fn flush(&mut self) -> std::io::Result<()> { self.inner.flush() }
+}
+impl std::io::Seek for ShortSink {
+    fn seek(&mut self, pos: std::io::SeekFrom) -> std::io::Result<u64> { self.inner.seek(pos) }
+}
+
 fn main() {
     hook_panics();
     let seed = env_seed();
@@ -216,6 +226,27 @@ fn main() {
             for x in &pcm { let (l, r) = ((*x as i64 + 1) >> 1, -((*x as i64) >> 1)); st_pcm.push(l as i32); st_pcm.push(r as i32); }
             let cfg = Cfg { bps: 31, ch: 2, bs: 256, lpc: Some(lpc), ..Cfg::default() };
             if let Ok(file) = encode_to_vec(Writer::Samples, &cfg, &st_pcm, &[st_pcm.len()]) { judge_file(&mut out, &mut st, &cfg, "ramp-wrapping-at-block-edge-in-side-channel", Writer::Samples, &st_pcm, &file); }
+        }
+    }
+    // sinks that accept fewer bytes than offered (legal for std::io::Write): the file that arrives must be the
+    // same conforming file a plain Vec receives
+    for (k, wr) in [(1usize, Writer::Samples), (3, Writer::BytesLe), (7, Writer::Channels), (64, Writer::BytesBe)] {
+        let cfg = Cfg { ch: 2, bs: 32, ..Cfg::default() };
+        let pcm = gen_pcm_ext(&mut rng, "walk", 2, 16, 150);
+        let chunks = [pcm.len()];
+        let plain = encode_to_vec(wr, &cfg, &pcm, &chunks);
+        let short = catch(|| -> Result<Vec<u8>, flac_codec::Error> {
+            let mut sink = ShortSink { inner: Cursor::new(Vec::new()), max: k };
+            encode_with(&mut sink, wr, &cfg, &pcm, &chunks, true)?;
+            Ok(sink.inner.into_inner())
+        });
+        match (plain, short) {
+            (Ok(a), Ok(Ok(b))) => {
+                if a != b { out.viol("short-write-sink-changes-file", &format!("a sink accepting at most {} byte(s) per write call receives a different file ({} vs {} bytes)", k, b.len(), a.len()), &[("cfg", cfg.json()), ("file", esc(&hex(&b)))]); }
+                judge_file(&mut out, &mut st, &cfg, "short-write-sink", wr, &pcm, &b);
+            }
+            (Ok(_), other) => out.viol("short-write-sink-fails", &format!("encoding into a sink accepting at most {} byte(s) per call: {:?}", k, other.map(|r| r.map(|v| v.len()).map_err(|e| err_class(&e)))), &[("cfg", cfg.json())]),
+            _ => {}
         }
     }
     // regression witnesses (DESIGN section 4)
